@@ -219,7 +219,8 @@ def normalise(fnode, helpers=None):
 
 def _is_guard_expr(v):
     t = norm(v)
-    return t.startswith(('np.any(', 'not np.array_equal(', 'not np.all(', 'np.array_equal(', 'np.all(')) or \
+    return t.startswith(('np.any(', 'not np.array_equal(', 'not np.all(', 'np.array_equal(', 'np.all(', 'bool(np.any(',
+                         'bool(not np.array_equal(')) or \
         (isinstance(v, ast.Compare) and ('len(' in t or '.size' in t))
 
 
@@ -244,6 +245,8 @@ class _Expr(ast.NodeTransformer):
     def guard(self, t):
         neg = False
         inner = t
+        if isinstance(inner, ast.Call) and norm(inner.func) == 'bool' and len(inner.args) == 1:
+            inner = t = inner.args[0]
         if isinstance(t, ast.UnaryOp) and isinstance(t.op, ast.Not):
             neg, inner = True, t.operand
         # --- "empty" guards
